@@ -141,7 +141,7 @@ def r17_3_check_then_act(repo: Repo, rep: Report):
     # shutdown: flag first, then sweep under the same lock
     _, sh = repo.fn("processes.PopenExecutor.shutdown")
     sets = [c for c in method_calls(sh, "set") if src(c.func.value) == "self._shutdown"]
-    ok = len(sets) == 1 and not guard_set(m, sets[0]) and sets[0].lineno == min(getattr(s, "lineno", 10**9) for s in sh.body if not (isinstance(s, ast.Expr) and isinstance(s.value, ast.Constant)))
+    ok = len(sets) == 1 and not guard_set(m, sets[0], silent=True) and sets[0].lineno == min(getattr(s, "lineno", 10**9) for s in sh.body if not (isinstance(s, ast.Expr) and isinstance(s.value, ast.Constant)))
     rep.check("R17.3", ok, m, sets[0] if sets else sh, "shutdown: self._shutdown.set() first, unconditionally", "the flag must be raised before anything else in shutdown")
     sweeps = [w for w in body_walk(sh) if isinstance(w, ast.With) and any(src(i.context_expr) == "self._lock" for i in w.items)]
     ok = len(sweeps) == 1 and "not (wait)" in guard_set(m, sweeps[0]) and "f.cancel" in src(sweeps[0]) and "for f in self._futures" in src(sweeps[0])
